@@ -134,7 +134,7 @@ Definition mkT id ts ver md ne bl alh es : txobs :=
 Definition mkO ok id alh committed inmem new stable : obs :=
   {| o_ok := ok; o_id := id; o_alh := alh; o_committed := committed; o_inmem := inmem;
      o_new := new; o_stable := stable |}.
-Definition mkC synced embedded ver maxactive maxentries maxkey maxval ext0 maxconc : cfg :=
+Definition mkC synced embedded ver maxactive maxentries maxkey maxval ext0 maxconc prealloc : cfg :=
   {| c_synced := synced; c_embedded := embedded; c_version := ver; c_maxactive := maxactive;
      c_maxentries := maxentries; c_maxkey := maxkey; c_maxval := maxval; c_ext0 := ext0;
-     c_maxconc := maxconc |}.
+     c_maxconc := maxconc; c_prealloc := prealloc |}.
